@@ -10,7 +10,7 @@ import time
 
 import legs
 
-TARGETS = {"C13": ("serve", 120), "C16": ("should_gzip", 60)}
+TARGETS = {"C13": ("serve", 120), "C16": ("should_gzip", 60), "C01": ("serve", 60), "C02": ("serve", 60), "C03": ("serve", 90), "C06": ("serve", 60)}
 
 
 def run(env, pid, tier, seed):
@@ -20,8 +20,9 @@ def run(env, pid, tier, seed):
     fz = env.fuzz
     e = legs.base_env()
     e["CARGO_TARGET_DIR"] = os.path.join(fz, "target")
+    e["HSV_FUZZ_PROP"] = pid
     art = os.path.join(env.out, "fuzz-%s" % pid)
-    corpus = os.path.join(fz, "corpus", target)
+    corpus = os.path.join(fz, "corpus", "%s-%s" % (target, pid))
     shutil.rmtree(art, ignore_errors=True)
     os.makedirs(art, exist_ok=True)
     os.makedirs(corpus, exist_ok=True)
